@@ -31,10 +31,11 @@ from .gitsim import Sim
 GEN_FILES = ["GenSecrets", "GenNoteWriters"]
 DRIVERS = ["redact"]
 THEOREMS = ["C08_decomposition", "C08_redact_complete", "C08_redact_never_panics", "C08_mask_hides",
-            "C08_redact_idempotent", "C08_length", "C08_long_token_refuted", "C08_inadmissible_unchanged",
-            "C08_prompts_redacted", "C08_tooluse_refuted", "C08_variants_known",
+            "C08_redact_idempotent", "C08_length", "C08_long_runs_examined", "C08_long_run_masked",
+            "C08_inadmissible_unchanged", "C08_prompts_redacted", "C08_all_variants_scanned", "C08_tooluse_redacted",
+            "C08_variants_known",
             "C08_no_text", "C08_no_text_seq", "C08_inventory_ok", "C08_inventory_safe", "C08_inventory_notes_ok",
-            "C08_unfiltered_writer_refuted", "C08_notes_mode_masks", "C08_exclude_wins", "C08_notes_needs_opt_in", "C08_agent_kinds",
+            "C08_cas_clears_all", "C08_partial_cas_refuted", "C08_unfiltered_writer_refuted", "C08_notes_mode_masks", "C08_exclude_wins", "C08_notes_needs_opt_in", "C08_agent_kinds",
             "C08_nonvacuous", "C08_nonvacuous_msg", "C08_nonvacuous_inventory", "C08_nonvacuous_seq"]
 CLAIM = {
     "text": "Machine-checked proof (Coq 8.16.1) over executable Gallina models. Redaction: for ALL byte texts and "
@@ -47,8 +48,9 @@ CLAIM = {
             "reachable from refs/notes/ai, for all sequences of such writers; the inventory check is a computed "
             "boolean over the generated table with NO exception list (the amend writer, formerly unfiltered, now "
             "applies the storage policy; a writer without a storage-mode match fed from the working log is proved to "
-            "break the invariant). The full-strength statement is proved false of the faithful model for "
-            "ToolUse.input and for runs longer than 90 bytes; these are listed known findings.",
+            "break the invariant). Every variant of the Message enum is scanned (the strings inside ToolUse.input "
+            "included) and a run of secret characters longer than 90 bytes is examined in consecutive pieces of "
+            "admissible length that cover it (both proved); the three former known findings are repaired.",
     "design_ref": "DESIGN.md §4 C08",
     "note": "The entropy classifier is a parameter of every theorem (it defines high-entropy). The writer inventory is "
             "syntactic: a writer flagged notes-sourced is trusted to take prompt records only from existing notes "
@@ -75,8 +77,8 @@ ASSUMPTIONS = [
 
 # former class C08-K1 (commit --amend with a pending inline transcript wrote unfiltered prompts) is REPAIRED:
 # the amend scenarios are ordinary witnesses now, a failure there is a regression (violation)
-K2 = "C08-K2 ToolUse.input is written unredacted in notes mode"
-K3 = "C08-K3 a secret-character run longer than 90 bytes is never examined"
+# former classes C08-K2 (ToolUse.input written unredacted) and C08-K3 (a run longer than 90 bytes never examined)
+# are REPAIRED as well: their witnesses are ordinary cases, a failure is a regression (violation)
 
 SECRET_RE = re.compile(rb"[A-Za-z0-9+/_\-.~]+")
 ALNUM = "ABCDEFGHIJKLMNOPQRSTUVWXYZabcdefghijklmnopqrstuvwxyz0123456789"
@@ -92,7 +94,10 @@ def bl(b):
 CANARY_WORDS = ["CANARY-USER", "CANARY-ASSIST", "CANARY-TOOL", "CANARY-LONG"]
 
 PATHS = ["commit", "amend-pending", "amend-clean", "rebase-slow", "rebase-fast", "cherry-pick", "squash",
-         "reset-recommit", "stash-pop", "ci-squash"]
+         "reset-recommit", "stash-pop", "ci-squash",
+         # a session with a transcript that leaves ZERO accepted lines (the agent only deleted lines / a person
+         # rewrote every line it wrote) committed together with a session whose lines survive
+         "zero-delete", "zero-overwritten"]
 
 # configurations: name -> (config.json of ~/.git-ai, test patch, remote url or None)
 CONFIGS = {
@@ -119,7 +124,30 @@ CONFIGS = {
     # a custom API base makes post_commit take the redact + CAS-enqueue arm of the default mode (offline: the
     # enqueue only writes the local queue)
     "default+custom-api": ({"prompt_storage": "default", "api_base_url": "http://127.0.0.1:9"}, None),
+    "default+api-env": ({"prompt_storage": "default"}, None),
+    "unset+api-env": ({}, None),
 }
+# extra environment of a configuration (GIT_AI_API_BASE_URL: custom API base => CAS-upload route; nothing listens)
+CONFIG_ENV = {"default+api-env": {"GIT_AI_API_BASE_URL": "http://127.0.0.1:9"},
+              "unset+api-env": {"GIT_AI_API_BASE_URL": "http://127.0.0.1:9"}}
+
+
+def cas_route(cfgname):
+    return bool(CONFIGS[cfgname][0].get("api_base_url") or CONFIG_ENV.get(cfgname, {}).get("GIT_AI_API_BASE_URL"))
+
+
+class Sim8(Sim):
+    """gitsim world with extra environment variables for every command"""
+
+    def __init__(self, *a, extra_env=None, **kw):
+        super().__init__(*a, **kw)
+        self.extra_env = dict(extra_env or {})
+
+    def env(self, extra=None):
+        e = super().env(extra)
+        for k_, v_ in self.extra_env.items():
+            e.setdefault(k_, v_)
+        return e
 
 
 def glob_match(pat, s):
@@ -259,19 +287,19 @@ def run_phase(sim, ag, path, k, inline, must):
     if path == "commit":
         must(ag.edit(sess, fpath, ai_text(F0, tag), tag), "checkpoint")
         commit(f"c{k}")
-        return [("post_commit", 1)]
+        return [("post_commit", [1])]
     if path == "amend-pending":
         g_line()
         commit(f"c{k}")
         must(ag.edit(sess, fpath, ai_text(F0, tag), tag), "checkpoint")
         commit(f"c{k} amended", "--amend")
-        return [("post_commit", 0), ("rewrite_authorship_after_commit_amend", 1 if inline else 0)]
+        return [("post_commit", []), ("rewrite_authorship_after_commit_amend", [1] if inline else [])]
     if path == "amend-clean":
         must(ag.edit(sess, fpath, ai_text(F0, tag), tag), "checkpoint")
         commit(f"c{k}")
         g_line()
         commit(f"c{k} amended", "--amend")
-        return [("post_commit", 1), ("rewrite_authorship_after_commit_amend", 0)]
+        return [("post_commit", [1]), ("rewrite_authorship_after_commit_amend", [])]
     if path in ("rebase-slow", "rebase-fast", "cherry-pick", "squash", "ci-squash"):
         sim.realgit("checkout", "-q", "-b", feat)
         must(ag.edit(sess, fpath, ai_text(F0, tag), tag), "checkpoint")
@@ -286,32 +314,46 @@ def run_phase(sim, ag, path, k, inline, must):
         if path in ("rebase-slow", "rebase-fast"):
             sim.git("checkout", "-q", feat)
             must(sim.git("rebase", "main"), "rebase")
-            return [("post_commit", 1), ("post_commit", 0),
+            return [("post_commit", [1]), ("post_commit", []),
                     ("rewrite_authorship_after_rebase_v2" if path == "rebase-slow"
-                     else "try_fast_path_rebase_note_remap", 0)]
+                     else "try_fast_path_rebase_note_remap", [])]
         if path == "cherry-pick":
             must(sim.git("cherry-pick", tip), "cherry-pick")
-            return [("post_commit", 1), ("post_commit", 0), ("rewrite_authorship_after_cherry_pick", 0)]
+            return [("post_commit", [1]), ("post_commit", []), ("rewrite_authorship_after_cherry_pick", [])]
         if path == "squash":
             must(sim.git("merge", "--squash", feat), "merge --squash")
             must(sim.git("commit", "-q", "-m", f"squashed {k}"), "commit squashed")
-            return [("post_commit", 1), ("post_commit", 0), ("post_commit", 0)]
+            return [("post_commit", [1]), ("post_commit", []), ("post_commit", [])]
         must(sim.realgit("merge", "--squash", feat), "plain merge --squash")
         must(sim.realgit("commit", "-q", "-m", f"squashed by the forge {k}"), "plain commit")
         must(sim.gitai("squash-authorship", "main", sim.head(), tip), "squash-authorship")
-        return [("post_commit", 1), ("post_commit", 0), ("rewrite_authorship_after_squash_or_rebase", 0)]
+        return [("post_commit", [1]), ("post_commit", []), ("rewrite_authorship_after_squash_or_rebase", [])]
     if path == "reset-recommit":
         must(ag.edit(sess, fpath, ai_text(F0, tag), tag), "checkpoint")
         commit(f"c{k}")
         must(sim.git("reset", "--soft", "HEAD~1"), "reset --soft")
         must(sim.git("commit", "-q", "-m", f"c{k} again"), "recommit")
-        return [("post_commit", 1), ("post_commit", 0)]
+        return [("post_commit", [1]), ("post_commit", [])]
     if path == "stash-pop":
         must(ag.edit(sess, fpath, ai_text(F0, tag), tag), "checkpoint")
         must(sim.git("stash"), "stash")
         must(sim.git("stash", "pop"), "stash pop")
         commit(f"c{k}")
-        return [("post_commit", 1)]
+        return [("post_commit", [1])]
+    if path in ("zero-delete", "zero-overwritten"):
+        zpath = f"z{k}.txt"
+        if path == "zero-delete":
+            # the agent only removes two lines
+            ls = F0.splitlines(keepends=True)
+            must(ag.edit(sess + "z", fpath, "".join(ls[:2] + ls[4:]), tag + "z"), "checkpoint (delete-only session)")
+        else:
+            # the agent writes two lines, then a person rewrites one and removes the other
+            must(ag.edit(sess + "z", fpath, ai_text(F0, tag), tag + "z"), "checkpoint (session to be overwritten)")
+            ls = F0.splitlines(keepends=True)
+            sim.write(fpath, "".join(ls[:4]) + f"person rewrote this {k}\n" + "".join(ls[4:]))
+        must(ag.edit(sess, zpath, ai_text(G0, tag), tag), "checkpoint (surviving session)")
+        commit(f"c{k}")
+        return [("post_commit", "accepted-lines-of-the-note")]
     raise ValueError(path)
 
 
@@ -322,7 +364,7 @@ def run_path(args):
     if isinstance(paths, str):
         paths = [paths]
     cfg, remote = CONFIGS[cfgname]
-    sim = Sim(base, f"y{idx}", config_patch={})
+    sim = Sim8(base, f"y{idx}", config_patch={}, extra_env=CONFIG_ENV.get(cfgname))
     inline = kind == "inline"
     try:
         os.makedirs(os.path.join(sim.home, ".git-ai"), exist_ok=True)
@@ -331,6 +373,7 @@ def run_path(args):
         files = {"g.txt": G0}
         for k in range(len(paths)):
             files[f"f{k}.txt"] = F0
+            files[f"z{k}.txt"] = G0
         sim.init(files)
         if remote:
             sim.realgit("remote", "add", "origin", remote)
@@ -349,7 +392,17 @@ def run_path(args):
         hits, nblobs = scan_ref(sim, "refs/notes/ai", needles)
         shits, sblobs = scan_ref(sim, "refs/notes/ai-stash", needles)
         head_note = sim.note_raw(sim.head()) or ""
-        return {"idx": idx, "config": cfgname, "path": "+".join(paths), "kind": kind, "steps": steps,
+        head_prompts = []
+        try:
+            md = json.loads(head_note.split("\n---\n", 1)[1])
+            head_prompts = [[v.get("accepted_lines", 0), len(v.get("messages", [])), bool(v.get("messages_url"))]
+                            for _, v in sorted(md.get("prompts", {}).items())]
+        except Exception:
+            pass
+        # the zero-accepted paths take the accepted_lines of their records from the note itself (a fact, not a guess)
+        steps = [(fn, [a_ for a_, _, _ in head_prompts] if acc == "accepted-lines-of-the-note" else acc)
+                 for fn, acc in steps]
+        return {"head_prompts": head_prompts,"idx": idx, "config": cfgname, "path": "+".join(paths), "kind": kind, "steps": steps,
                 "hits": {k: len(v) for k, v in hits.items()}, "blobs": nblobs,
                 "stash_hits": {k: len(v) for k, v in shits.items()}, "stash_blobs": sblobs,
                 "head_has_note": bool(head_note), "masked_in_head": "********" in head_note,
@@ -362,12 +415,12 @@ def run_path(args):
 def sys_model_case(r, keys, msgs_sx, cands_sx, has_inline_text):
     cfg, remote = CONFIGS[r["config"]]
     eff = effective_mode_py(cfg, remote)
-    logged = 1 if cfg.get("api_base_url") else 0
+    logged = 1 if cas_route(r["config"]) else 0
     steps = []
-    for fn, fresh in r["steps"]:
-        if fn == "rewrite_authorship_after_commit_amend":
-            fresh = fresh and has_inline_text[r["kind"]]
-        steps.append([bl(fn.encode()), 1 if fresh else 0])
+    for fn, accs in r["steps"]:
+        if fn == "rewrite_authorship_after_commit_amend" and not has_inline_text[r["kind"]]:
+            accs = []
+        steps.append([bl(fn.encode()), list(accs)])
     needles = [bl(w.encode()) for w in CANARY_WORDS] + [bl(keys[k].encode()) for k in ("text", "tool", "long")]
     return f"{eff} {logged} 1 {C.sx(steps)} {msgs_sx} {cands_sx} {C.sx(needles)}"
 
@@ -458,13 +511,27 @@ def py_runs(b):
     return [(m.start(), m.end()) for m in SECRET_RE.finditer(b)]
 
 
+def py_pieces(b):
+    """the candidate tokens as documented: every maximal run of 15..90 secret bytes; a longer run cut into
+    consecutive pieces of at most 90 bytes, never leaving fewer than 15 for the rest: [(start, end)]"""
+    out = []
+    for a, e in py_runs(b):
+        while e - a > 90:
+            k = min(90, e - a - 15)
+            out.append((a, a + k))
+            a += k
+        if 15 <= e - a <= 90:
+            out.append((a, e))
+    return out
+
+
 def oracle_text(tb, ob, verdict):
     """Independent oracle for one text.  verdict: {token bytes: bool} from the real classifier.
     Returns (failure text or None, number of flagged tokens)."""
     pat, toks, pos = [], [], 0
-    for a, e in py_runs(tb):
+    for a, e in py_pieces(tb):
         run = tb[a:e]
-        if 15 <= len(run) <= 90 and verdict.get(run, False):
+        if verdict.get(run, False):
             pat.append(re.escape(tb[pos:a]))
             pat.append(b"(.*?)")
             toks.append(run)
@@ -477,6 +544,24 @@ def oracle_text(tb, ob, verdict):
         if t in g:
             return f"flagged token {t!r} is still there verbatim", len(toks)
     return None, len(toks)
+
+
+def tool_view(json_bytes):
+    """(shape bytes, [string leaf bytes in document order]) of a tool input: serde_json prints compactly and keeps
+    object keys sorted; the shape is the value with every string leaf emptied"""
+    leaves = []
+
+    def walk(v):
+        if isinstance(v, str):
+            leaves.append(v.encode())
+            return ""
+        if isinstance(v, list):
+            return [walk(x) for x in v]
+        if isinstance(v, dict):
+            return {k: walk(v[k]) for k in sorted(v, key=lambda k_: k_.encode())}
+        return v
+    shape = walk(json.loads(json_bytes.decode()))
+    return json.dumps(shape, separators=(",", ":"), ensure_ascii=False).encode(), leaves
 
 
 def cont_ok_py(b):
@@ -527,6 +612,15 @@ def run(ctx):
     else:
         inventory = []
 
+    # ---------- the model's own counterexample search over the storage-mode matches (CAS per-prompt condition incl.)
+    model_cex = []
+    if ctx.model_ok:
+        cx = C.run([drv, "c08-cas-cex"]).stdout.splitlines()
+        model_cex = [ln for ln in cx if ln.startswith("cex ")]
+        obligations.append(("tie:model search - no writer with a storage-mode match leaves the messages of any record "
+                            "(accepted_lines 0 or 1) in default/local mode, CAS route included", not model_cex,
+                            "; ".join(model_cex[:3])))
+
     # ---------- C1: redact_secrets_in_text on generated texts
     n_txt = 5000 if quick else 100000
     corpus = ["", "short", "sk_test_4eC39HqLyjWDarjtT1zdp7dc", "API_KEY=sk_test_4eC39HqLyjWDarjtT1zdp7dc",
@@ -555,10 +649,20 @@ def run(ctx):
         model_in.append((i, body[i] + " " + cands_sx))
     model = C.run_cases(drv, "c08-redact", model_in) if ctx.model_ok else {}
     model_tok = C.run_cases(drv, "c08-tokens", [(i, body[i]) for i, *_ in cases]) if ctx.model_ok else {}
-    n_flagged_texts = n_cand_texts = n_long_runs = n_contbad = n_oracle_ok = 0
+    n_flagged_texts = n_cand_texts = n_long_runs = n_contbad = n_oracle_ok = n_long_flagged = 0
     again, thm_bad = [], []
-    long_probe = []      # (case id, run bytes) for K3
     tok_disagree = 0
+    # the oracle needs the real classifier's verdict for EVERY documented candidate token, also for those the
+    # scanner did not report (then the monitor below fails as well): ask for the missing ones
+    missing = set()
+    for i, emb, kinds, t in cases:
+        if i in parsed:
+            tb = t.encode()
+            have = {c for c, _ in parsed[i][2]}
+            missing |= {tb[a:e] for a, e in py_pieces(tb) if tb[a:e] not in have}
+    missing = sorted(missing)
+    mv = C.run_cases(C.VHARNESS, "c08-isrand", [(str(k), bl(t_)) for k, t_ in enumerate(missing)]) if missing else {}
+    extra_verdict = {t_: mv.get(str(k)) == "1" for k, t_ in enumerate(missing)}
     for i, emb, kinds, t in cases:
         if i not in parsed:
             continue
@@ -567,22 +671,26 @@ def run(ctx):
         if not cont_ok_py(tb):
             n_contbad += 1
         runs = py_runs(tb)
-        adm = [tb[a:e] for a, e in runs if 15 <= e - a <= 90]
+        pcs = py_pieces(tb)
+        adm = [tb[a:e] for a, e in pcs]
+        verdict = {p_: extra_verdict[p_] for p_ in adm if p_ in extra_verdict}
+        for tok, v in cands:
+            verdict[tok] = v
+        has_long = False
         for a, e in runs:
             ln = e - a
             if ln in (14, 15, 16, 89, 90, 91, 200):
                 dist["forced_len"][str(ln)] = dist["forced_len"].get(str(ln), 0) + 1
             if ln > 90:
                 n_long_runs += 1
-                long_probe.append((f"{i}@{a}", tb[a:a + 90], tb[a:e], ob))
+                has_long = True
+                if any(verdict.get(tb[x:y], False) for x, y in pcs if a <= x and y <= e):
+                    n_long_flagged += 1
         if adm != [c for c, _ in cands]:
             tok_disagree += 1
-        want_tok = C.sx([[a, e] for a, e in runs if 15 <= e - a <= 90])
+        want_tok = C.sx([[a, e] for a, e in pcs])
         if impl_tok.get(i) != want_tok:
             tok_disagree += 1
-        verdict = {}
-        for tok, v in cands:
-            verdict[tok] = v
         fail, nfl = oracle_text(tb, ob, verdict)
         if nfl != n and fail is None:
             fail = f"redaction count {n} but {nfl} flagged tokens"
@@ -591,7 +699,8 @@ def run(ctx):
             distinct.add(t)
         if nfl:
             n_flagged_texts += 1
-            again.append((i, ob))
+            if not has_long:        # side condition of C08_redact_idempotent
+                again.append((i, ob))
             flagged_total = sum(len(c) for c, v in cands if v)
             if len(ob) + flagged_total != len(tb) + 16 * n:
                 thm_bad.append(f"C08_length instance fails on {t[:80]!r}")
@@ -618,21 +727,12 @@ def run(ctx):
         p2 = parse_redact_result(second.get(i))
         if p2 is None or p2[0] != ob or p2[1] != 0:
             thm_bad.append(f"C08_redact_idempotent instance fails: second pass over {ob[:80]!r} gives {second.get(i, '')[:80]}")
-    obligations.append(("tie:theorem instances on the implementation (C08_redact_idempotent, C08_length) for every text "
-                        "with a flagged token", not thm_bad, "; ".join(thm_bad[:3])))
-    obligations.append(("monitor:extract_tokens returns exactly the maximal runs of 15..90 secret bytes (regex view)",
+    obligations.append(("tie:theorem instances on the implementation (C08_redact_idempotent on texts without an over-long "
+                        "run, C08_length) for every text with a flagged token", not thm_bad, "; ".join(thm_bad[:3])))
+    obligations.append(("monitor:extract_tokens returns exactly the documented candidates: maximal runs of 15..90 secret bytes, "
+                        "longer runs cut into pieces of at most 90 that leave at least 15 (regex view)",
                         tok_disagree == 0, f"{tok_disagree} texts differ"))
     obligations.append(("monitor:cont_ok holds of every generated text (valid UTF-8)", n_contbad == 0, f"{n_contbad} bad"))
-
-    # K3: a run longer than MAX whose first 90 bytes the classifier flags stays verbatim
-    k3 = 0
-    if long_probe:
-        pv = C.run_cases(C.VHARNESS, "c08-isrand", [(pid, bl(pre)) for pid, pre, _, _ in long_probe])
-        for pid, pre, run_, ob in long_probe:
-            if pv.get(pid) == "1" and run_ in ob:
-                k3 += 1
-        if k3:
-            known_seen.add(K3)
 
     # ---------- redact_secret directly (multibyte: a slice off a char boundary panics)
     n_sec = 800 if quick else 20000
@@ -665,27 +765,47 @@ def run(ctx):
             for _ in range(r.range(0, 4)):
                 kind = r.weighted([(4, "u"), (3, "a"), (1, "t"), (1, "p"), (3, "x")])
                 _, _, t = gen_text(r)
-                ms.append([kind, list(b"Bash"), list(t.encode())] if kind == "x" else [kind, list(t.encode())])
+                if kind == "x":
+                    _, _, t2 = gen_text(r)
+                    inp = r.weighted([(4, {"command": t}), (2, {"file_path": "/tmp/x", "content": t, "n": r.below(9)}),
+                                      (2, {"args": [t, t2, True, None, 7], "zz": {"deep": {"k": t2}}}), (1, t), (1, [])])
+                    ms.append(["x", list(b"Bash"), list(json.dumps(inp, ensure_ascii=False).encode())])
+                else:
+                    ms.append([kind, list(t.encode())])
             ps.append([list(f"p{k:03d}".encode()), ms])
         pcases.append((f"p{i}", ps))
     pi = C.run_cases(C.VHARNESS, "c08-prompts", [(i, C.sx(ps)) for i, ps in pcases])
-    pm_in, tool_probe = [], []
+    pm_in = []
+    pmissing = set()
     for i, ps in pcases:
         out = pi.get(i)
         if not out or not out.startswith("("):
             violations.append((f"redact_secrets_from_prompts panicked on {C.sx(ps)[:200]}", {"kind": "prompts", "case": ps, "impl": out}))
             continue
         xs = C.sx_parse_many(out)
-        pm_in.append((i, C.sx(ps) + " " + C.sx(xs[1])))
+        # the model sees a tool input as (shape, string leaves in document order)
+        mps = [[pid, [(["x", m[1]] + [list(x_) for x_ in tool_view(bytes(m[2]))[:1]]
+                       + [[list(x_) for x_ in tool_view(bytes(m[2]))[1]]]) if m[0] == "x" else m for m in ms]]
+               for pid, ms in ps]
+        pm_in.append((i, C.sx(mps) + " " + C.sx(xs[1])))
+        have = {bytes(e[0]) for e in xs[1][1:]}
+        for _, ms in ps:
+            for m in ms:
+                for tb_ in (tool_view(bytes(m[2]))[1] if m[0] == "x" else [bytes(m[1])]):
+                    pmissing |= {tb_[a:e] for a, e in py_pieces(tb_) if tb_[a:e] not in have}
+    pmissing = sorted(pmissing)
+    pmv = C.run_cases(C.VHARNESS, "c08-isrand", [(str(k), bl(t_)) for k, t_ in enumerate(pmissing)]) if pmissing else {}
+    pextra = {t_: pmv.get(str(k)) == "1" for k, t_ in enumerate(pmissing)}
     pm = C.run_cases(drv, "c08-prompts", pm_in) if ctx.model_ok else {}
-    n_msgs = n_tool_msgs = 0
+    n_msgs = n_tool_msgs = n_tool_flagged = 0
     for i, ps in pcases:
         out = pi.get(i)
         if not out or not out.startswith("("):
             continue
         xs = C.sx_parse_many(out)
         ok, cands, strip = xs[0], xs[1], xs[2]
-        verdict = {bytes(e[0]): e[1] == 1 for e in cands[1:]}
+        verdict = dict(pextra)
+        verdict.update({bytes(e[0]): e[1] == 1 for e in cands[1:]})
         if strip[1] != 0:
             violations.append(("strip_prompt_messages left messages behind", {"kind": "prompts", "case": ps, "impl": out}))
         outs = ok[1]
@@ -701,13 +821,20 @@ def run(ctx):
                     violations.append(("message kind changed", {"kind": "prompts", "case": ps, "impl": out}))
                     continue
                 if m[0] == "x":
+                    # the tool input: name, keys, numbers and nesting unchanged; every string leaf redacted like text
                     n_tool_msgs += 1
-                    tb = bytes(m[2])
-                    if o[1:] != m[1:]:
-                        violations.append(("a ToolUse message was altered", {"kind": "prompts", "case": ps, "impl": out}))
-                    for a, e in py_runs(tb):
-                        if 15 <= e - a <= 90:
-                            tool_probe.append((f"{i}@{len(tool_probe)}", tb[a:e]))
+                    shape, leaves = tool_view(bytes(m[2]))
+                    if o[1] != m[1] or bytes(o[2]) != shape or len(o[3]) != len(leaves):
+                        violations.append(("the name / structure of a ToolUse input was altered",
+                                           {"kind": "prompts", "case": ps, "impl": out}))
+                        continue
+                    for lf, olf in zip(leaves, o[3]):
+                        fail, nfl = oracle_text(lf, bytes(olf), verdict)
+                        total += nfl
+                        n_tool_flagged += 1 if nfl else 0
+                        if fail:
+                            violations.append((f"string inside ToolUse.input: {fail}: {lf[:100]!r} -> {bytes(olf)[:100]!r}",
+                                               {"kind": "prompts", "case": ps, "impl": out}))
                 else:
                     fail, nfl = oracle_text(bytes(m[1]), bytes(o[1]), verdict)
                     total += nfl
@@ -719,12 +846,6 @@ def run(ctx):
             want = C.sx(ok) + " " + C.sx(strip)
             if pm.get(i) != want:
                 mism.append(f"redact_secrets_from_prompts {C.sx(ps)[:80]}: impl {want[:80]} model {str(pm.get(i))[:80]}")
-    k2 = 0
-    if tool_probe:
-        tv = C.run_cases(C.VHARNESS, "c08-isrand", [(pid, bl(t)) for pid, t in tool_probe])
-        k2 = sum(1 for pid, _ in tool_probe if tv.get(pid) == "1")
-        if k2:
-            known_seen.add(K2)
     obligations.append(("tie:correspondence Model/Redact.v vs secrets.rs (extract_tokens, redact_secrets_in_text, "
                         "redact_secret, redact_secrets_from_prompts, strip_prompt_messages)",
                         (not mism) and ctx.model_ok, "; ".join(mism[:3]) if mism else ("" if ctx.model_ok else "model did not build")))
@@ -768,14 +889,17 @@ def run(ctx):
         res = C.parallel_map(run_path, items)
         # what the model needs: the conversation, the classifier's verdicts, which agent keeps text inline
         ag = Agent(None, "inline", keys)
-        msgs = []
+        msgs, hmsgs = [], []
         for role, body_ in ag.messages("t1"):
             if role == "tool":
-                msgs.append(["x", list(b"Bash"), list(json.dumps(body_).encode())])
+                sh_, lv_ = tool_view(json.dumps(body_).encode())
+                msgs.append(["x", list(b"Bash"), list(sh_), [list(x_) for x_ in lv_]])
+                hmsgs.append(["x", list(b"Bash"), list(json.dumps(body_).encode())])
             else:
                 msgs.append(["u" if role == "user" else "a", list(body_.encode())])
+                hmsgs.append(msgs[-1])
         msgs_sx = C.sx(msgs)
-        pr = C.run_cases(C.VHARNESS, "c08-prompts", [("m", C.sx([[list(b"p"), msgs]]))], shards=1)
+        pr = C.run_cases(C.VHARNESS, "c08-prompts", [("m", C.sx([[list(b"p"), hmsgs]]))], shards=1)
         cands_sx = C.sx(C.sx_parse_many(pr["m"])[1])
         has_inline = {"inline": True, "claude": False}
         if ctx.model_ok:
@@ -791,7 +915,7 @@ def run(ctx):
                        for x in res if "error" not in x]
         pred = C.run_cases(drv, "c08-run", model_cases, shards=4) if ctx.model_ok else {}
         engine_bad, seen_text_in_notes_mode, cas_seen = [], 0, 0
-        n_amend_fixed, amend_lost = 0, []
+        n_amend_fixed, amend_lost, zero_seen = 0, [], 0
         for x in res:
             if "error" in x:
                 violations.append(("engine error", x))
@@ -820,15 +944,15 @@ def run(ctx):
                 if raw["text"]:
                     fails.append(("notes mode: the flagged key of a user message is in refs/notes/ai unmasked", None))
                 if raw["tool"]:
-                    fails.append(("notes mode: the flagged key inside ToolUse.input is in refs/notes/ai unmasked", K2))
+                    fails.append(("notes mode: the flagged key inside ToolUse.input is in refs/notes/ai unmasked", None))
                 if raw["long"]:
                     fails.append(("notes mode: a 120-byte key whose first 90 bytes are flagged is in refs/notes/ai "
-                                  "unmasked", K3))
+                                  "unmasked", None))
             classes = {c for _, c in fails if c}
             unexplained = [f for f, c in fails if c is None]
             if unexplained:
                 violations.append((f"{x['config']} (effective {eff}) / {x['path']} / {x['kind']}: " + "; ".join(unexplained),
-                                   {"kind": "system", **x, "keys": keys}))
+                                   {"kind": "system", **x, "keys": keys, "model_counterexample": model_cex[:4]}))
             elif fails:
                 n_sys_known += 1
                 known_seen.update(classes)
@@ -841,8 +965,12 @@ def run(ctx):
                 n_amend_fixed += 0 if unexplained else 1
                 if eff == "notes" and x["path"] == "amend-pending" and not (words and x["masked_in_head"]):
                     amend_lost.append(x["config"])
-            if x["config"] == "default+custom-api" and x["path"] == "commit":
+            if cas_route(x["config"]) and eff == "default" and x["path"] == "commit":
                 cas_seen += 1 if x["cas_url_in_head"] else 0
+            if cas_route(x["config"]) and eff == "default" and x["path"] in ("zero-delete", "zero-overwritten"):
+                hp = x["head_prompts"]
+                if any(a_ == 0 for a_, _, _ in hp) and any(a_ > 0 and u_ for a_, _, u_ in hp):
+                    zero_seen += 1
             if len(samples) < 7 and (fails or (eff == "notes" and x["path"] == "commit")):
                 samples.append({"case": "system", "config": x["config"], "effective_mode": eff, "path": x["path"],
                                 "agent": x["kind"], "note_blobs_read": x["blobs"], "canary_words_found": words,
@@ -858,6 +986,8 @@ def run(ctx):
                             n_amend_fixed > 0 and not amend_lost, f"{n_amend_fixed} scenarios pass; lost: {amend_lost}"))
         obligations.append(("monitor:the redact + CAS-enqueue arm of the default mode was exercised (messages_url in the note)",
                             cas_seen > 0, f"{cas_seen} scenarios"))
+        obligations.append(("monitor:CAS route with a zero-accepted session exercised (the note has a record with accepted_lines "
+                            "= 0 next to an uploaded one)", zero_seen > 0, f"{zero_seen} scenarios"))
         if ctx.model_ok:
             obligations.append(("tie:system-level - Model/Taint.v run over the generated inventory predicts exactly "
                                 "which canaries / keys reach refs/notes/ai", not sys_mism, "; ".join(sys_mism[:3])))
@@ -886,9 +1016,9 @@ def run(ctx):
                                     "redact_secret_panics_(multibyte_slice)": f"{n_sec_panic}/{len(scases)}",
                                     "prompt_messages": n_msgs, "tool_use_messages": n_tool_msgs},
             "oracle_passes": n_oracle_ok,
-            "oracle_failures_in_known_classes": {"K2/K3 system scenarios": n_sys_known,
-                                                 "K2 in-process (flagged token inside ToolUse.input kept)": k2,
-                                                 "K3 in-process (run > 90 with flagged prefix kept)": k3},
+            "oracle_failures_in_known_classes": {"system scenarios": n_sys_known},
+            "fixed_witnesses": {"runs longer than 90 bytes with a flagged piece (all masked)": n_long_flagged,
+                                "ToolUse string leaves with a flagged token (all masked)": n_tool_flagged},
             "correspondence_mismatches": len(mism) + len(sys_mism),
             "generated_inventory": inventory,
             "canary_keys": keys,
